@@ -64,6 +64,7 @@ type execEnv struct {
 	blocks   map[string][]byte
 	installs map[string]map[string]int // "<lid>@<version>" -> active physical id -> installing thread
 	c37      []string
+	abs      *absRec // C37: abstract event trace for the model binder
 }
 
 func newStoreMap(sc *scenario) map[string]txn.StoreSpec {
@@ -123,6 +124,11 @@ func mkScenario(sc *scenario) *sched.Scenario {
 		Epoch:      epoch,
 		MaxVirtual: 8 * time.Hour,
 		StallAt:    stallMap(sc),
+		IO: func(x *sched.Execution, op, path string) {
+			if env, ok := x.Env.(*execEnv); ok && env.abs != nil {
+				env.abs.onIO(x.CurrentID(), op, path)
+			}
+		},
 		Setup: func(x *sched.Execution) []sched.ThreadSpec {
 			sopenv.Restore(2)
 			sopenv.MaxTime = sc.MaxTime
@@ -210,6 +216,11 @@ func mkScenario(sc *scenario) *sched.Scenario {
 		},
 		Teardown: func(x *sched.Execution) {
 			env := x.Env.(*execEnv)
+			if env.abs != nil {
+				sopenv.L2.OnLocked, sopenv.L2.OnUnlock = nil, nil
+				absEmit(env.abs.finish(sc, x), absShard)
+				env.abs = nil
+			}
 			if sc.StallThread0 {
 				// C15 "a transaction that gives up releases its locks": a lock granted to a thread whose
 				// transaction has ended by itself (committed, failed or gave up; not stalled) must be gone
@@ -372,6 +383,7 @@ func main() {
 func worker(run *ev.Run, prop string, sc *scenario, shard, shards int, thorough bool) {
 	defer sopenv.Cleanup()
 	t0 := time.Now()
+	absShard = shard
 	buildTemplate(sc)
 	ssc := mkScenario(sc)
 	// determinism self-test: the default schedule twice must give identical traces and outcomes.
@@ -1272,6 +1284,7 @@ func checkC15(viol func(kind, detail string), sc *scenario, x *sched.Execution, 
 }
 
 var monitorC37 bool
+var absShard int
 
 // installMonitor (C37): watches every registry block write. For each handle whose version is bumped by the
 // write it records (logical id, new version) -> active physical id and the installing thread; two different
@@ -1280,6 +1293,17 @@ var monitorC37 bool
 func installMonitor(x *sched.Execution, env *execEnv) {
 	env.blocks = map[string][]byte{}
 	env.installs = map[string]map[string]int{}
+	env.abs = newAbsRec()
+	sopenv.L2.OnLocked = func(keys []*sop.LockKey) {
+		if ns := env.abs.nodeKeys(keys); len(ns) > 0 {
+			env.abs.events = append(env.abs.events, absEvent{Op: "Lock", T: x.CurrentID(), Ns: ns})
+		}
+	}
+	sopenv.L2.OnUnlock = func(keys []*sop.LockKey) {
+		if ns := env.abs.nodeKeys(keys); len(ns) > 0 {
+			env.abs.events = append(env.abs.events, absEvent{Op: "Unlock", T: x.CurrentID(), Ns: ns})
+		}
+	}
 	parse := func(blk []byte) map[fsck.UUID]fsck.Handle {
 		m := map[fsck.UUID]fsck.Handle{}
 		for i := 0; i+fsck.RecSz <= fsck.CRCOff && i+fsck.RecSz <= len(blk); i += fsck.RecSz {
@@ -1304,6 +1328,7 @@ func installMonitor(x *sched.Execution, env *execEnv) {
 		}
 		before, after := parse(old), parse(block)
 		tid := x.CurrentID()
+		env.abs.onBlock(tid, before, after)
 		for lid, h := range after {
 			o, had := before[lid]
 			if had && o.Version == h.Version && o.Active() == h.Active() {
